@@ -204,11 +204,11 @@ def parts(tier):
                shards=12, timeout=170, path_timeout=30),
         ]
     return [
-        CH("trees4", "vflib.props.c12:scen_layouts", {"models": 4, "twins": True}, shards=16, timeout=250, path_timeout=30),
-        CH("trees4_converted_names", "vflib.props.c12:scen_layouts", {"models": 4, "model_keys": True}, shards=16, timeout=250, path_timeout=30),
+        CH("trees4", "vflib.props.c12:scen_layouts", {"models": 4, "twins": True}, shards=16, timeout=150, path_timeout=30),
+        CH("trees4_converted_names", "vflib.props.c12:scen_layouts", {"models": 4, "model_keys": True}, shards=16, timeout=150, path_timeout=30),
         CH("flat_any_graph", "vflib.props.c12:scen_flat_any_graph",
            {"pool": "KEY_POOL_FULL", "styled": "k3", "templates": ["two_similar_children", "recursive", "deep_chain", "list_of_objects", "nested_object"]},
-           shards=16, timeout=250, path_timeout=30),
+           shards=16, timeout=150, path_timeout=30),
     ]
 
 
